@@ -35,6 +35,7 @@ THEOREMS = [
     "C08_keep_own_values",
     "C08_keep_own_unedited",
     "C08_keep_own_idempotent",
+    "C08_rebuild_idempotent_refuted",
     "C08_expand",
     "C08_expand_zero_count_refuted",
     "C08_recompress",
@@ -334,11 +335,11 @@ def tokens_of(text):
             return None
         kind, arg = pw
         if kind == "number":
-            toks.append(["num", rat(arg)])
+            toks.append(["num", rat(float(arg))])  # the double the lexer's fortran_float yields
         elif kind == "multiply":
             if not re.fullmatch(r"[+-]?\d+[mM]", w):
                 return None  # known finding C08-F1: not lexed as a shortcut
-            toks.append(["mul", rat(arg)])
+            toks.append(["mul", rat(float(arg))])
         else:
             if arg == 0:
                 return None  # count 0 is outside G (C08_expand_zero_count_refuted)
@@ -373,7 +374,10 @@ def parse_agrees(model_items, res):
                 if not ref.matches(("log", Fraction(*a), Fraction(*b), n, k), Fraction(*iv)):
                     return False
             elif not ref.close(Fraction(*mv), Fraction(*iv), Fraction(1, 10**12)):
-                return False
+                # an interpolate near 0: doubles vs exact rationals differ by ~1e-16 of the interpolation's scale
+                nums = [abs(Fraction(*x)) for x in mi["vals"] if isinstance(x, list)]
+                if not (mi["sc"] == "lin" and abs(Fraction(*mv) - Fraction(*iv)) <= Fraction(1, 10**12) * max(nums)):
+                    return False
     return True
 
 
@@ -403,7 +407,12 @@ def judge_round(ob):
         if "err" in second:
             return ({"mechanism": "shortcut", "class": second["err"], "kind": kind, "site": "second-" + second["site"]}, f"second rebuild from the same values: {second['err']}")
         if second["text"] != ob["text"] or second.get("text_again") != second["text"]:
-            return ({"mechanism": "shortcut", "class": "second-write-differs", "kind": kind, "site": "format"}, f"first {ob['text']!r}, again {second['text']!r}")
+            sig = {"mechanism": "shortcut", "class": "second-write-differs", "kind": kind, "site": "format"}
+            nums = sorted(v for v in _floats(ob["values"]) if v is not None)
+            # distinct values within rel_tol of each other: closeness is not transitive along such a chain
+            if any(0 < (w - v) <= Fraction(1, 10**9) * max(abs(v), abs(w)) for v, w in zip(nums, nums[1:])):
+                sig["tolerance_chain"] = True
+            return (sig, f"first {ob['text']!r}, again {second['text']!r}")
     return None
 
 
@@ -558,6 +567,14 @@ CORPUS = [
     {"unit": "listnode", "text": "1 2i 4", "rounds": [[["set", 1, 2.5]]]},
     {"unit": "listnode", "text": "1 2i 4 3m", "rounds": [[["set", 3, 5.0]]]},
     {"unit": "listnode", "text": "1 2i 4 2 2 r", "rounds": [[["set", 2, 2.0], ["set", 3, 2.0]]]},
+    # an interpolate that should be 0 (oracle false alarm of round 6: judged on the scale of the interpolation)
+    {"unit": "listnode", "text": "-2 3i 1.9999999999999998", "rounds": [[]]},
+    {"unit": "listnode", "text": "-2 -1 0 1 1.9999999999999998 4 5m", "rounds": [[["copyall"]], [["set", 5, 4.0]]]},
+    # rebuilt twice (fixes 9bda70f, 5d77013, d7a689d)
+    {"unit": "listnode", "text": "2.0 1.0 1.0 50.0 0.02m 4 1.0", "rounds": [[["copyall"]], [["copyall"]]]},
+    {"unit": "listnode", "text": "1.0 2m 2i 5. 0", "rounds": [[["copyall"]]]},
+    {"unit": "listnode", "text": "0 i 10 5m", "rounds": [[["set", 0, 4.0]]]},
+    {"unit": "listnode", "text": "2 r J", "rounds": [[["set", 2, 2.0]]]},
     # the list handed in as copies of its own nodes (fix 70989d6)
     {"unit": "listnode", "text": "0.5 1.0 2r 4 1.0 1.0", "rounds": [[["copyall"]]]},
     {"unit": "listnode", "text": "0.5 1.0 2r 4 1.0 1.0", "rounds": [[["copyall"], ["set", 2, 5.0]]]},
@@ -959,7 +976,7 @@ def check_listnode_case(chk, drv, case, ri, table, ci, confirm=True):
                     chk.count("flaky:correspondence")
                     return True
                 if _in_isclose_band(ob2["model_case"]):
-                    chk.count("band:multiply-threshold (not compared)")
+                    chk.count("band:isclose-threshold (not compared)")
                     return True
                 chk.broken_obligation(
                     "correspondence",
@@ -979,6 +996,12 @@ def _in_isclose_band(mcase):
     """a multiply validation `isclose(base * written, product)` of this case sits within 1e-12 of the threshold:
     exact rationals (model) and doubles (code) may then decide differently (DESIGN 1.3); such a case is not compared"""
     vals = [None if v["val"] is None else Fraction(*v["val"]) for v in mcase.get("vals", [])]
+    nums = [abs(v) for v in vals if v is not None]
+    if nums and any(sc["kind"] in ("lin", "log") for sc in mcase.get("shortcuts", [])):
+        # isclose has no absolute tolerance: next to an interpolation, a value that is (almost) 0 on the scale of
+        # the list is decided by the last bit of the double computation (exact rationals give -1e-16, doubles 0.0)
+        if any(v <= Fraction(1, 10**12) * max(nums) for v in nums):
+            return True
     for sc in mcase.get("shortcuts", []):
         if sc["kind"] != "mul" or sc.get("mulWritten") is None:
             continue
